@@ -52,9 +52,11 @@ CLAIMED = {
     "C16": dict(
         text="Machine-checked proof (Lean 4) that rho(phi,w,t) of a specification without unbounded future is determined by the "
              "samples 0..t+hor(phi) (any two trace lengths, any continuation), transferred to the offline evaluator through C01; "
-             "correspondence: evaluate() on a trace and on random extensions, compared at all settled positions and with rho.",
-        note="Lean kernel + standard axioms; discrete time proved; dense time covered by the metamorphic correspondence stream only "
-             "until the dense model carries the theorem; tie sampled.",
+             "correspondence: evaluate() on a trace and on random extensions, compared at all settled positions and with rho. Dense time: the same statement for the mirror of the dense offline "
+             "visitor (C16_alg_settled) and, through genD_eval_all, for the visitor translated from the Python source on every run "
+             "(C16_translated_dense_settled): two well-formed inputs agreeing up to t + hor give the same value at t.",
+        note="Lean kernel + standard axioms; discrete and dense offline proved (dense: supported fragment without interface-aware "
+             "predicates, signals starting at 0, no NaN); tie = translator for the dense visitor, sampled correspondence otherwise.",
         technique="Lean 4 proof by structural induction on the formula + metamorphic correspondence",
         design="DESIGN.md §4 C16"),
     "C07": dict(
@@ -70,8 +72,11 @@ CLAIMED = {
     "C18": dict(
         text="Machine-checked proof (Lean 4) of the nine duality / expansion laws as equalities of rho for all operands, bounds "
              "and traces, transferred to the discrete offline and online monitors through C01/C02; metamorphic correspondence: "
-             "both sides of every law evaluated by the same real monitor on random operands and traces.",
-        note="Lean kernel + standard axioms; no NaN; dense-time laws validated by the metamorphic stream only; tie sampled.",
+             "both sides of every law evaluated by the same real monitor on random operands and traces. Dense time: the laws on rhoD "
+             "(C18Dense), on the mirror of the dense offline visitor, and the two bounded negation dualities on the visitor translated "
+             "from the Python source on every run (C18_translated_not_once_bounded, C18_translated_not_ev_bounded).",
+        note="Lean kernel + standard axioms; no NaN; the remaining dense-time laws on translated code are validated by the "
+             "metamorphic stream; tie = translator for the two translated laws, sampled otherwise.",
         technique="Lean 4 proof (window algebra over a bounded linear order) + metamorphic correspondence",
         design="DESIGN.md §4 C18"),
     "C08": dict(
@@ -81,7 +86,9 @@ CLAIMED = {
              "default unit, sampling period in any unit) to samples depends only on the durations relative to the sampling period, "
              "that samples x period is exactly the written duration, that non-multiples are rejected with RTAMTException, and "
              "hence that specifications with the same durations elaborate to the same core formula (so every monitor and pastify "
-             "give identical results); dense-time bounds depend on durations only. Correspondence: metamorphic over random "
+             "give identical results); dense-time bounds depend on durations only - proved on DenseTimeInterpreter."
+             "time_unit_transformer as translated from the source (gen_dense_time_unit_transformer, gen_dense_units_same_durations). "
+             "Correspondence: metamorphic over random "
              "configurations and spellings on the real offline, online and pastified monitors, plus model elaboration vs real outcome.",
         note="Lean kernel + standard axioms; the commutation of the surface pastifier with elaboration is validated by the stream, "
              "not proved; known finding F35 (pastify of next under a period different from one default unit) excluded by region; "
@@ -136,7 +143,8 @@ CLAIMED = {
              "(ok / RTAMTException / other exception type) of the real monitors vs the model on degenerate data shapes and on "
              "unsupported constructs.",
         note="Lean kernel + standard axioms; totality is about the mirrors, tied to the code by the regenerated tables and the "
-             "sampled correspondence; dense-time rejection by table + correspondence only.",
+             "sampled correspondence; dense-time rejection proved on the translated dense sources (GenDenseC17: an unsupported construct "
+             "never yields a value, offline and online, and the visitor tables are exact) and sampled by the correspondence.",
         technique="Lean 4 proof (totality corollaries of C01/C02 + structural induction for rejection) + source-derived tables + outcome-class correspondence",
         design="DESIGN.md §4 C17"),
     "C06": dict(
@@ -216,7 +224,8 @@ CLAIMED = {
              "bounded or not, bounded eventually/always) the dense-time semantics of the step signal sampled with period P, read at "
              "k*P, equals the discrete-time rho at sample k whenever k + hor < n; and, on the algorithms, that the list the mirror of "
              "the dense offline visitor returns, read at k*P, is entry k of the list of the mirror of the discrete offline visitor "
-             "(C19_alg_dense_eq_discrete). Correspondence: the real dense and the real "
+             "(C19_alg_dense_eq_discrete), and the same for the two visitors as translated from the Python source on every run "
+             "(C19_translated_sampled, C19_translated_dense_eq_discrete). Correspondence: the real dense and the real "
              "discrete offline monitors on the same grid signal, against each other and against both models.",
         note="Lean kernel + standard axioms; signals start at time 0; tie sampled.",
         technique="Lean 4 proof (window LUB over the reals = discrete maximum over grid points, via the step-function theory) + differential correspondence",
